@@ -464,6 +464,10 @@ impl Layer for DefaultsLayer<'_> {
 pub fn handle(st: &mut State, req: &Value) -> Value {
     match jstr(req, "op") {
         "init" => {
+            // the working directory of the process that handles the layers ("chdir"): the layers directory may be spelled relative to it
+            if let Some(d) = req.get("chdir").and_then(Value::as_str) {
+                std::env::set_current_dir(d).expect("chdir");
+            }
             let descriptor = "api = \"0.10\"\n[buildpack]\nid = \"vp/test\"\nversion = \"1.0.0\"\n";
             st.refs.clear();
             st.first_refs.clear();
@@ -488,6 +492,13 @@ pub fn handle(st: &mut State, req: &Value) -> Value {
             let f: extern "C" fn(i32) = unsafe { std::mem::transmute(f) };
             f(i32::from(jbool(req, "on")));
             json!({"armed": true})
+        }
+        // the process moves into another directory (e.g. into a layer it is about to delete) - handles and context stay as they are
+        "chdir" => {
+            match std::env::set_current_dir(jstr(req, "dir")) {
+                Ok(()) => json!({"ok": true}),
+                Err(e) => json!({"err": "chdir", "detail": e.to_string()}),
+            }
         }
         "drop_refs" => {
             st.refs.clear();
@@ -555,6 +566,73 @@ pub fn handle(st: &mut State, req: &Value) -> Value {
                     v
                 }
             }
+        }
+        // several threads of one process, each handling a layer of its own in the same layers directory (a buildpack that prepares its
+        // layers in parallel): every layer's files are that layer's, whatever the other threads do at the same moment
+        "threads" => {
+            let ctx = st.ctx.as_ref().expect("init first");
+            let threads = req["threads"].as_u64().unwrap_or(4) as usize;
+            let rounds = req["rounds"].as_u64().unwrap_or(50) as usize;
+            let problems: std::sync::Mutex<Vec<String>> = std::sync::Mutex::new(Vec::new());
+            std::thread::scope(|sc| {
+                for k in 0..threads {
+                    let problems = &problems;
+                    sc.spawn(move || {
+                        let name: LayerName = format!("t{k}").parse().expect("layer name");
+                        let note = |m: String| {
+                            let mut p = problems.lock().unwrap();
+                            if p.len() < 5 {
+                                p.push(m);
+                            }
+                        };
+                        for i in 0..rounds {
+                            let launch = (i + k) % 2 == 0;
+                            let r = match ctx.cached_layer(
+                                &name,
+                                CachedLayerDefinition {
+                                    build: true,
+                                    launch,
+                                    invalid_metadata_action: &|_: &GenericMetadata| -> Result<(InvalidMetadataAction<GenericMetadata>, String), TErr> { Ok((InvalidMetadataAction::DeleteLayer, "invalid".to_string())) },
+                                    restored_layer_action: &|_: &GenericMetadata, _: &Path| -> Result<(RestoredLayerAction, String), TErr> { Ok((RestoredLayerAction::KeepLayer, "kept".to_string())) },
+                                },
+                            ) {
+                                Ok(r) => r,
+                                Err(e) => {
+                                    note(format!("thread {k} round {i}: cached_layer failed: {e:?}"));
+                                    return;
+                                }
+                            };
+                            let mut t = toml::Table::new();
+                            t.insert("owner".into(), toml::Value::Integer(k as i64));
+                            t.insert("round".into(), toml::Value::Integer(i as i64));
+                            t.insert("padding".into(), toml::Value::String("x".repeat(200 + 37 * k)));
+                            if let Err(e) = r.write_metadata(Some(t)) {
+                                note(format!("thread {k} round {i}: write_metadata failed: {e:?}"));
+                                return;
+                            }
+                            let text = std::fs::read_to_string(ctx.layers_dir.join(format!("t{k}.toml"))).unwrap_or_default();
+                            match toml::from_str::<toml::Table>(&text) {
+                                Ok(doc) => {
+                                    let md = doc.get("metadata").and_then(toml::Value::as_table);
+                                    let owner = md.and_then(|m| m.get("owner")).and_then(toml::Value::as_integer);
+                                    let round = md.and_then(|m| m.get("round")).and_then(toml::Value::as_integer);
+                                    let l = doc.get("types").and_then(toml::Value::as_table).and_then(|t| t.get("launch")).and_then(toml::Value::as_bool);
+                                    if owner != Some(k as i64) || round != Some(i as i64) || l != Some(launch) {
+                                        note(format!("thread {k} round {i}: t{k}.toml holds owner {owner:?} round {round:?} launch {l:?} (expected {k} {i} {launch}): {:?}", &text.chars().take(120).collect::<String>()));
+                                        return;
+                                    }
+                                }
+                                Err(e) => {
+                                    note(format!("thread {k} round {i}: t{k}.toml is not valid TOML ({e}): {:?}", &text.chars().take(120).collect::<String>()));
+                                    return;
+                                }
+                            }
+                        }
+                    });
+                }
+            });
+            let stray: Vec<String> = std::fs::read_dir(&ctx.layers_dir).map(|rd| rd.flatten().map(|e| e.file_name().to_string_lossy().to_string()).filter(|n| !(n.starts_with('t') && n.len() <= 12)).collect()).unwrap_or_default();
+            json!({"problems": problems.into_inner().unwrap(), "stray": stray, "writes": threads * rounds})
         }
         // metadata whose type has only optional fields: written, then the layer is requested `requests` more times (keep each time):
         // every one of them restores the layer and hands the same value to the callback
